@@ -374,9 +374,12 @@ Fixpoint params_tree (pms : list pmig) (old : list e3) (defaults : list text) : 
       end
   end.
 
+Lemma canon_nil : canon [] = None.
+Proof. reflexivity. Qed.
+
 Lemma params_tree_ok : forall pms old defaults ts,
   Forall good old -> params_tree pms old defaults = Some ts ->
-  migrate_params pms (map print3 old) defaults = map print3 ts /\ Forall good ts.
+  migrate_params pms (map print3 old) defaults = Some (map print3 ts) /\ Forall good ts.
 Proof.
   induction pms as [|m pms IH]; intros old defaults ts G H; cbn [params_tree migrate_params] in *.
   - inversion H; subst. split; [reflexivity|constructor].
@@ -384,20 +387,22 @@ Proof.
     + destruct defaults as [|d defaults'].
       * inversion H; subst. split; [reflexivity|constructor].
       * destruct (canon d) as [dt|] eqn:Ec; [|discriminate].
+        assert (Hd : d <> []) by (intros ->; rewrite canon_nil in Ec; discriminate).
         apply canon_spec in Ec. destruct Ec as [Ed Gd].
         destruct (pm_tree m dt) as [x|] eqn:Ex; [|discriminate].
         destruct (params_tree pms [] defaults') as [r|] eqn:Er; [|discriminate].
         inversion H; subst ts.
         destruct (pm_tree_ok _ _ _ Gd Ex) as [P1 G1].
         destruct (IH [] defaults' r (Forall_nil _) Er) as [P2 G2].
-        cbn [map] in P2. split; [cbn [map]; rewrite Ed, P1, P2; reflexivity | constructor; assumption].
+        cbn [map] in P2. destruct d as [|c0 d0]; [contradiction|]. rewrite P2. cbn [option_map map].
+        split; [rewrite Ed, P1; reflexivity | constructor; assumption].
     + inversion G as [|? ? Go Gold]; subst.
       destruct (pm_tree m o) as [x|] eqn:Ex; [|discriminate].
       destruct (params_tree pms old' (tl defaults)) as [r|] eqn:Er; [|discriminate].
       inversion H; subst ts.
       destruct (pm_tree_ok _ _ _ Go Ex) as [P1 G1].
       destruct (IH old' (tl defaults) r Gold Er) as [P2 G2].
-      split; [cbn [map]; rewrite P1, P2; reflexivity | constructor; assumption].
+      rewrite P2. cbn [option_map map]. split; [rewrite P1; reflexivity | constructor; assumption].
 Qed.
 
 (* ---------------------------------------------------------------------------------------------- *)
@@ -804,7 +809,7 @@ Proof.
     destruct (params_tree pms ts defaults) as [ps|] eqn:Ep; [|discriminate].
     cbn [option_map] in H. inversion H; subst t.
     destruct (params_tree_ok _ _ _ _ G Ep) as [P Gp].
-    rewrite P. split; [rewrite print3_call3; reflexivity | apply good_call3; assumption].
+    rewrite P. cbn [option_map]. split; [rewrite print3_call3; reflexivity | apply good_call3; assumption].
   - inversion H; subst t. destruct (datedif_trees_ok ts G) as [P Gd].
     split; [rewrite print3_call3, P; reflexivity | apply good_call3; [reflexivity | exact Gd]].
   - destruct (with_default_trees required defaults ts) as [ts'|] eqn:Ew; [|discriminate].
@@ -1110,12 +1115,13 @@ Section Template.
     default_to_self = false -> url_encode = false ->
     text_eqb s t_empty_literal = false ->
     parse1 s = Some e -> mt ctxmap raw_dates e = Some t ->
+    too_long ctxmap raw_dates (max_migrated_length s) e = false ->
     exists body, mseg (SExpr s) following = (64 :: body, false) /\
       (body = print3 t \/ body = 40 :: print3 t ++ [41]) /\
       parse3 (print3 t) = Some t.
   Proof.
-    intros s e t following Hd Hu Hne Hp Hm. unfold mseg, migrate_seg, migrate_expression.
-    rewrite Hne, Hp, Hd, Hu, (mt_no_errs ctxmap raw_dates e t Hm). destruct (visit_mt ctxmap raw_dates e t Hm) as [Pv [W L]].
+    intros s e t following Hd Hu Hne Hp Hm Hcap. unfold mseg, migrate_seg, migrate_expression.
+    rewrite Hne, Hp, Hd, Hu, (mt_no_errs ctxmap raw_dates e t Hm), Hcap. cbn [orb]. destruct (visit_mt ctxmap raw_dates e t Hm) as [Pv [W L]].
     rewrite Pv. unfold wrap_raw.
     destruct (is_valid_identifier (print3 t)).
     - destruct (separate_from_cases (64 :: print3 t) following) as [E|E]; fold sep; rewrite E.
@@ -1191,7 +1197,10 @@ Definition hyp_seg (ctx : text -> text) (raw_dates : bool) (s : seg) : bool :=
   | SExpr t =>
       if text_eqb t t_empty_literal then true
       else match parse1 t with
-           | Some e => match mt ctx raw_dates e with Some _ => true | None => false end
+           | Some e => match mt ctx raw_dates e with
+                       | Some _ => negb (too_long ctx raw_dates (max_migrated_length t) e)
+                       | None => false
+                       end
            | None => false
            end
   end.
@@ -1518,3 +1527,9 @@ Proof.
   - repeat constructor; discriminate.
   - vm_compute. reflexivity.
 Qed.
+
+(* the growth-cap hypothesis of expr_parses holds for the nested example (and is false for nested datetime + time,
+   9 levels: evaluated by the driver's probe on the real code) *)
+Example cap_example :
+  exists e, parse1 ex_legacy = Some e /\ too_long ex_ctx false (max_migrated_length ex_legacy) e = false.
+Proof. eexists. split; vm_compute; reflexivity. Qed.
